@@ -276,5 +276,6 @@ func checkC11(c *runCtx) {
 	vtSearch(c, p, vtSpec{Name: "candidate stream of gathering cycles: host + srflx", Model: "gather", Cfg: gatherCfg{Ifaces: gIfacesBasic, NetTypes: []string{"udp4"}, CandTypes: []string{"host", "srflx"}, URLs: []string{"stun:198.51.100.1:3478"}, Depth: depth}, Deadline: dl})
 	csExplore(c, "addcandidate-after-cancel", 3, dl, func(zzmc.Failure) string { return "S6" })
 	csExplore(c, "gather-vs-restart", b, dl, nil)
+	csExplore(c, "gather-vs-gather", b, dl, nil) // two accepted calls: one cycle's candidates, then one end marker
 	_ = time.Second
 }
